@@ -164,7 +164,8 @@ def match_id_paths(chk, facts, rule):
         r = src(strip(p.result)) if p.result is not None else ""
         is_err = r.startswith("Err(") or (p.how == "return" and r.startswith("Err("))
         # what does the path know?
-        found = any(re.search(r"env\.get_var\(lit,.*\)(\.is_some\(\)|~Some\()", c) for c in pos) or any(re.search(r"env\.get_var\(lit,.*\)(\.is_none\(\)|~None)", c) for c in neg)
+        found = any(re.search(r"env\.get_var\(lit,.*\)(\.is_some\(\)|~Some\()", c) for c in pos) or any(re.search(r"env\.get_var\(lit,.*\)(\.is_none\(\)|~None)", c) for c in neg) \
+            or any(re.search(r"letSome\(.*\)=env\.get_var\(lit,", c) for c in pos)          # (`match .. { Some(_) => .., None => .. }` is normalised to if-let)
         absent = any(re.search(r"env\.get_var\(lit,.*\)(\.is_none\(\)|~None)", c) for c in pos) or any(re.search(r"env\.get_var\(lit,.*\)\.is_some\(\)", c) for c in neg) \
             or any(re.search(r"letSome\(.*\)=env\.get_var\(lit,", c) for c in neg)
         kind = None
